@@ -1517,7 +1517,12 @@ class StateEngine(object):
                     error_type has *any* value and States.TaskFailed is
                     present in the ErrorEquals array then we should match.
                     """
-                    error_equals = retrier.get("ErrorEquals")
+                    error_equals = (
+                        retrier.get("ErrorEquals")
+                        if isinstance(retrier, dict) else None
+                    )
+                    if not isinstance(error_equals, list):
+                        continue  # Not a usable Retrier, so can't match.
                     if (
                         error_type in error_equals
                         or "States.TaskFailed" in error_equals
@@ -1528,6 +1533,11 @@ class StateEngine(object):
                         interval_seconds = retrier.get("IntervalSeconds", 1)
                         max_attempts = retrier.get("MaxAttempts", 3)
                         backoff_rate = retrier.get("BackoffRate", 2.0)
+                        if not all(
+                            isinstance(n, (int, float)) for n in
+                            (interval_seconds, max_attempts, backoff_rate)
+                        ):
+                            continue  # Not a usable Retrier.
                         if backoff_rate < 1.0:
                             backoff_rate = 1.0
 
@@ -1603,7 +1613,12 @@ class StateEngine(object):
                     “ErrorEquals” field, transitions the machine to the state
                     named in the value of the “Next” field.
                     """
-                    error_equals = catcher.get("ErrorEquals")
+                    error_equals = (
+                        catcher.get("ErrorEquals")
+                        if isinstance(catcher, dict) else None
+                    )
+                    if not isinstance(error_equals, list):
+                        continue  # Not a usable Catcher, so can't match.
                     if (
                         error_type in error_equals
                         or "States.TaskFailed" in error_equals
